@@ -26,6 +26,9 @@ type Engine struct{}
 
 func (Engine) Name() string { return "thrconc" }
 
+// StallIsHarnessTrouble: see engine.Staller.
+func (Engine) StallIsHarnessTrouble() bool { return true }
+
 type rec struct {
 	task     int
 	op       thrmodel.Op
@@ -266,6 +269,7 @@ func (Engine) Run(c *choice.Src, o engine.Opt) (out engine.Out) {
 		fns = append(fns, func() {
 			for _, op := range plans[ti] {
 				simrt.TaskYield()
+				engine.CurrentCall.Store(fmt.Sprintf("task %d %v", ti, op))
 				recs[ti] = append(recs[ti], doOp(ti, op))
 			}
 		})
